@@ -14,7 +14,7 @@ TIER="${1:-quick}"; SEED="${2:-1}"
 ROOT="$(cd "$(dirname "$0")/.." && pwd)"
 H="$ROOT/harness"; BIN="$H/target/release/mvmon"
 OUT="$H/target/lanes-C03"; rm -rf "$OUT"; mkdir -p "$OUT" "$H/target/partials"
-if [ "$TIER" = thorough ]; then MEM_SHARDS=8; MEM_N=4; MIRI_SHARDS=16; MIRI_N=3; else MEM_SHARDS=4; MEM_N=2; MIRI_SHARDS=8; MIRI_N=1; fi
+if [ "$TIER" = thorough ]; then MEM_SHARDS=8; MEM_N=4; MIRI_SHARDS=16; MIRI_N=3; else MEM_SHARDS=4; MEM_N=2; MIRI_SHARDS=4; MIRI_N=1; fi
 RC=0
 # ---------------------------------------------------------------- memcheck
 MEM_OK=0; MEM_ERR=0
@@ -36,7 +36,9 @@ MEM_PROGS=$(cat "$OUT"/memcheck_*.log 2>/dev/null | grep -c "^SAN-OK")
 # ---------------------------------------------------------------- miri
 MIRI_OK=0; MIRI_UB_REPO=0; MIRI_UB_DEP=0; MIRI_PROGS=0
 export MIRIFLAGS="-Zmiri-tree-borrows -Zmiri-disable-isolation"
-if (cd "$H" && CARGO_TARGET_DIR="$H/target-miri" cargo +nightly miri build --offline --bin mvmon >"$OUT/miri_build.log" 2>&1); then
+# (cargo miri has no `build`: a run that only prints the usage compiles the crate for the Miri target)
+(cd "$H" && CARGO_TARGET_DIR="$H/target-miri" cargo +nightly miri run --offline --bin mvmon -- usage >"$OUT/miri_build.log" 2>&1)
+if grep -q "usage: mvmon" "$OUT/miri_build.log"; then
   for s in $(seq 0 $((MIRI_SHARDS-1))); do
     ( cd "$H" && CARGO_TARGET_DIR="$H/target-miri" timeout 1500 cargo +nightly miri run --offline --bin mvmon -- san-workload "$SEED" "$s" "$MIRI_N" >"$OUT/miri_$s.log" 2>&1; echo $? >"$OUT/miri_$s.rc" ) &
   done
